@@ -220,35 +220,69 @@ def splice_and_verify(canary=False):
                 if k > st:
                     lines[k - 1] = "    assert(false); /*CANARY*/ }"
             open(f, "w").write("\n".join(lines))
-    cmd = [SPLICE, "--src", os.path.join(REPO, "src"), "--out", src, "--meta", meta, "--vc", os.path.join(VERIF, "contracts"), "--vc", gen,
-           "--spec", spec_dir, "--extra-mod", "verif_pec"]
-    if canary:
-        cmd.append("--canary")
-    rc, out, err, _ = run(cmd)
-    if rc != 0:
-        raise ToolProblem("splice: " + (err.strip().splitlines() or ["failed"])[-1])
-    cmd = [SPLICE, "--src", pdir, "--out", src, "--meta", meta2, "--vc", os.path.join(VERIF, "contracts_pec")]
-    if canary:
-        cmd.append("--canary")
-    rc, out, err, _ = run(cmd)
-    if rc != 0:
-        raise ToolProblem("splice(pec): " + (err.strip().splitlines() or ["failed"])[-1])
-    linemap = json.load(open(os.path.join(meta, "linemap.json")))
-    linemap.update(json.load(open(os.path.join(meta2, "linemap.json"))))
-    fnindex = json.load(open(os.path.join(meta, "fnindex.json"))) + json.load(open(os.path.join(meta2, "fnindex.json")))
-    fnindex += index_spec_fns(os.path.join(VERIF, "spec"))
-    report = json.load(open(os.path.join(meta, "report.json")))
-    report2 = json.load(open(os.path.join(meta2, "report.json")))
-    report["contracts"] += report2["contracts"]
-    report.update(depinfo)
-    t_splice = time.time() - t0
-    vcmd = ["verus", "src/lib.rs", "--crate-type", "lib", "--edition", "2024", "--triggers-mode", "silent",
-            "--extern", "bitfield=" + os.path.join(deps, "libbitfield.rlib"), "--extern", "smbus_pec=" + os.path.join(deps, "libsmbus_pec.rlib"),
-            "-L", deps, "--multiple-errors", "30", "--num-threads", str(min(NCPU, 16)), "--error-format=json", "--output-json", "--time-expanded"]
-    rc, out, err, dt = run(vcmd, cwd=sc, env={"RUSTUP_TOOLCHAIN": TOOLCHAIN}, timeout=1500)
-    res = parse_verus(rc, out, err, linemap, fnindex, sc)
+    # Lenient anchoring (DESIGN.md §6): a proof hint or a whole contract that no longer fits the function it is anchored
+    # in is LEFT OUT (never adapted) and the function is listed in res["unapplied"]; decide() treats what depends on it
+    # as undecided.  A contract text that does not compile against a changed function is dropped the same way, one
+    # function per retry: first its hints, then the contract.
+    drop_h, drop_c = [], []
+    spec_src = spec_dir
+    for attempt in range(10):
+        if attempt:
+            for d in (src, meta, meta2):
+                shutil.rmtree(d, ignore_errors=True)
+                os.makedirs(d)
+        cmd = [SPLICE, "--src", os.path.join(REPO, "src"), "--out", src, "--meta", meta, "--vc", os.path.join(VERIF, "contracts"), "--vc", gen,
+               "--spec", spec_src, "--extra-mod", "verif_pec"]
+        for f in drop_h:
+            cmd += ["--drop-hints", f]
+        for f in drop_c:
+            cmd += ["--drop-contract", f]
+        if canary:
+            cmd.append("--canary")
+        rc, out, err, _ = run(cmd)
+        if rc != 0:
+            raise ToolProblem("splice: " + (err.strip().splitlines() or ["failed"])[-1])
+        cmd = [SPLICE, "--src", pdir, "--out", src, "--meta", meta2, "--vc", os.path.join(VERIF, "contracts_pec")]
+        if canary:
+            cmd.append("--canary")
+        rc, out, err, _ = run(cmd)
+        if rc != 0:
+            raise ToolProblem("splice(pec): " + (err.strip().splitlines() or ["failed"])[-1])
+        linemap = json.load(open(os.path.join(meta, "linemap.json")))
+        linemap.update(json.load(open(os.path.join(meta2, "linemap.json"))))
+        fnindex = json.load(open(os.path.join(meta, "fnindex.json"))) + json.load(open(os.path.join(meta2, "fnindex.json")))
+        fnindex += index_spec_fns(os.path.join(VERIF, "spec"))
+        report = json.load(open(os.path.join(meta, "report.json")))
+        report2 = json.load(open(os.path.join(meta2, "report.json")))
+        report["contracts"] += report2["contracts"]
+        report["unapplied"] = report.get("unapplied", []) + report2.get("unapplied", [])
+        report.update(depinfo)
+        t_splice = time.time() - t0
+        vcmd = ["verus", "src/lib.rs", "--crate-type", "lib", "--edition", "2024", "--triggers-mode", "silent",
+                "--extern", "bitfield=" + os.path.join(deps, "libbitfield.rlib"), "--extern", "smbus_pec=" + os.path.join(deps, "libsmbus_pec.rlib"),
+                "-L", deps, "--multiple-errors", "30", "--num-threads", str(min(NCPU, 16)), "--error-format=json", "--output-json", "--time-expanded"]
+        rc, out, err, dt = run(vcmd, cwd=sc, env={"RUSTUP_TOOLCHAIN": TOOLCHAIN}, timeout=1500)
+        res = parse_verus(rc, out, err, linemap, fnindex, sc)
+        nxt = None
+        for ce in res["compile_errors"]:
+            for sp in ce["spans"]:
+                o = sp[2] if len(sp) > 2 and isinstance(sp[2], dict) else {}
+                if o.get("o") == "vc" and o.get("fn") and not str(o.get("fn")).startswith("verif_"):
+                    f = o["fn"]
+                    if o.get("kind") in ("hint", "invariant") and f not in drop_h and f not in drop_c:
+                        nxt = ("h", f)
+                    elif f not in drop_c:
+                        nxt = ("c", f)
+                    if nxt:
+                        break
+            if nxt:
+                break
+        if not nxt:
+            break
+        (drop_h if nxt[0] == "h" else drop_c).append(nxt[1])
     res.update({"report": report, "fnindex": fnindex, "t_splice": round(t_splice, 2), "t_verus": round(dt, 2),
-                "verus_cmd": " ".join(vcmd).replace(work, "<scratch>"), "cached": False, "canary": canary})
+                "verus_cmd": " ".join(vcmd).replace(work, "<scratch>"), "cached": False, "canary": canary,
+                "unapplied": report.get("unapplied", [])})
     # scan for assumptions in the generated unit
     res["assumption_scan"] = scan_assumptions(src)
     if not res.get("tool_error"):
@@ -422,11 +456,12 @@ def parse_verus(rc, out, err, linemap, fnindex, sc):
             ob["where"] = "%s:%s" % (po.get("file"), po.get("line"))
         ob["src_text"] = prim.get("text", "")
         ob["origin"] = po.get("o")
+        ob["po"] = po
         res["failed"].append(ob)
     if res["verified"] is None and res["failed"]:
         # verification did not run (front-end / VIR error): these are not proof obligations
         for ob in res["failed"]:
-            res["compile_errors"].append({"message": ob["message"], "code": None, "spans": [(ob.get("where"), 0, {})]})
+            res["compile_errors"].append({"message": ob["message"], "code": None, "spans": [(ob.get("where"), 0, ob.get("po") or {})]})
         res["failed"] = []
     if res["verified"] is None and not res["failed"] and not res["compile_errors"] and not res["tool_error"]:
         res["tool_error"] = "verus produced no result (rc=%s): %s" % (rc, err[-400:])
@@ -699,11 +734,33 @@ def decide(pid, tier, seed):
     # ---- structural-drift rule (DESIGN.md §6): in a module whose set of functions/loops changed, a failed obligation
     # means "the contracts no longer fit", not yet "the property is broken": it needs a failing input to become an alarm
     drift = drifted_modules(res["fnindex"])
-    soft = [ob for ob in failed if (ob.get("fn") or "").split("::")[0] in drift]
+    # lenient anchoring: functions whose hints/contract could not be applied.  A lost CONTRACT removes obligations, so a
+    # property whose cone names that function (or one of its labelled clauses) cannot be reported as held by the proof;
+    # and every caller now fails for lack of the callee's postcondition: all failures become soft.
+    unapplied = res.get("unapplied") or []
+    lost_fns = sorted(set(u["fn"] for u in unapplied if u["kind"] == "contract"))
+    hint_fns = sorted(set(u["fn"] for u in unapplied if u["kind"] != "contract"))
+    lost_mine = []
+    for u in unapplied:
+        if u["kind"] != "contract":
+            continue
+        labels = u.get("ensures", [])
+        if _fn_listed(u["fn"], cone.get("functions", [])) or any(l.startswith(pid + ".") or any((x.endswith("*") and l.startswith(x[:-1])) or x == l for x in cone.get("labels", [])) for l in labels):
+            lost_mine.append(u["fn"])
+    for u in unapplied:
+        notes.append("contract text not applied to %s (%s: %s)" % (u["fn"], u["kind"], u.get("why", "")))
+    drift |= set(f.split("::")[0] for f in hint_fns)
+    if lost_fns:
+        soft = list(failed)
+    else:
+        soft = [ob for ob in failed if (ob.get("fn") or "").split("::")[0] in drift]
     hard = [ob for ob in failed if ob not in soft]
-    if soft and not hard and not violations:
+    if (soft or lost_mine) and not hard and not violations:
         import vsearch
         cex = vsearch.find_counterexample(pid, [], seed, tier)
+        if not (cex and cex.get("reproduced")) and lost_mine:
+            raise ToolProblem("the contract of %s can no longer be attached to the code (%s) and no failing input was found - contracts need re-anchoring"
+                              % (", ".join(sorted(set(lost_mine))), "; ".join(u.get("why", "") for u in unapplied if u["fn"] in lost_mine)[:300]))
         if not (cex and cex.get("reproduced")):
             raise ToolProblem("the structure of module(s) %s changed (functions/loops differ from contracts/structure.json); %d obligation(s) could not be re-established (%s) and no failing input was found - contracts need re-anchoring"
                               % (", ".join(sorted(drift)), len(soft), "; ".join(ob_name(o) for o in soft[:3])))
